@@ -34,6 +34,26 @@ CHECKS = {
    technique="bounded-exhaustive differential execution of index/slice forms and fault probes (panic decision, side-effect trace, repeatability) against go1.24.0",
    text="Every 1/2/3-index form on slices, arrays, array pointers and strings x 9 index types x containers whose lengths straddle the narrow index types' ranges x the full product of boundary index values as run-time values, constant-index forms on run-time sized containers, and 74 fault probes (nil dereference at offsets 0/4800/1 MiB, maps, assertions, division, make, slice-to-array, channel misuse, evaluation-order traces), each once, three times in one goroutine and once in a fresh goroutine. The panic/no-panic decision, the trace of side effects before and after, and the result descriptors must equal the reference toolchain's.",
    note="Panic values are not compared. Known findings (repeated SIGSEGV in one thread, discarded nil loads, nil *array slicing, select-send on closed channel) are listed per case in known_findings.txt.", ref="§4 C03"),
+ "C05": dict(cat="model_checking", engine="enum",
+   technique="explicit enumeration of all operation sequences up to a depth on the real slices in lock-step with a reference model; exhaustive string alphabet vs go1.24.0",
+   text="For seven element types (sizes 0,1,2,3,8,24 and strings) every sequence of <=4 operations (big start states: 2) from a 24-operation alphabet (append one/many/self/overlapping tail, delete idiom, copy overlapping in both directions, 2- and 3-index reslices, clear, stores through either variable, aliasing, make) is replayed on fresh slices from 12 start states around the growth thresholds; after each step len, capacity consistency and every element are compared with a reference model that adopts the capacity the implementation chose and requires fresh storage on growth and sharing otherwise; a final write-through probe checks aliasing. Strings: every byte string of length <=3 over 12 bytes spanning every UTF-8 error class through range/[]rune/[]byte/indexing/substrings/comparison/concatenation and integer conversions, compared with go1.24.0.",
+   note="The model is validated by running the same program under go1.24.0. Depth and start-state bounds as stated; capacities after growth are implementation-defined and not compared.", ref="§4 C05"),
+ "C06": dict(cat="model_checking", engine="enum",
+   technique="explicit enumeration of all operation histories up to a depth from start states straddling every growth boundary, differential vs go1.24.0 plus in-program iteration specification",
+   text="Seven key/value shapes (ints, strings, floats incl. signed zeros/NaN/Inf, interface keys of mixed dynamic types, arrays, struct keys with 200-byte values (indirect elems), 136-byte keys (indirect keys), zero-size values) x 54 start states (18 populations on both sides of each load-factor boundary, built by ascending inserts, by insert/delete/re-insert, by make with hint) x every sequence of <=3 (small) / <=2 operations from a 28-operation alphabet incl. five range-with-mutation loops; an order-independent digest of the resulting map is compared with the reference toolchain and the iteration specification (present-throughout exactly once, never a deleted or duplicate entry) is checked inside the program; every binary runs under several interposed hash seeds.",
+   note="Hash seed/iteration start are owned through an LD_PRELOAD rand() seam; iteration order itself is never compared; depth bounds as stated.", ref="§4 C06"),
+ "C07": dict(cat="exploration", engine="enum",
+   technique="bounded-exhaustive type grammar: partition by run-time type name vs partition by go/types.Identical (in-process), plus differential end-to-end programs",
+   text="All 27k types of constructor depth <=2 over 30 base types (named types of two packages with equal names, function-local types, generic instances, aliases) with every composite constructor and near-miss attribute (field names, owning package of unexported names, tags, embedding, variadic, channel direction, method signatures) are named by the real Builder.TypeName; the grouping by name must coincide with the grouping by types.Identical, which decides every pair. End-to-end: 34 identical/near-miss pairs across packages through assertion, type switch, ==, interface-keyed maps and reflect; all (method-set subset, receiver kind, value/pointer) x interface-subset pairs with dispatch traces, embedding and shadowing.",
+   note="types.Identical is the specification; the grouping index is validated against it on >100k pairs each run.", ref="§4 C07"),
+ "C08": dict(cat="exploration", engine="enum",
+   technique="bounded-exhaustive type grammar through the three real layout computations on five targets (in-process), plus host end-to-end comparison incl. gcc",
+   text="6.5k types x {amd64, arm64, 386, arm, wasm}: Sizeof/Alignof/Offsetsof from the Sizes that fold unsafe.*, the LLVM alloc size/ABI alignment/element offsets used by generated code, and the descriptor table's Size/Align plus map bucket arithmetic must agree pairwise. Host: compiled programs compare unsafe constants, address differences/array strides and reflect for all structs of <=2 C-compatible fields and Go-only shapes, and the C-compatible ones against gcc's sizeof/_Alignof/offsetof.",
+   note="Three confirmed root causes of disagreement (zero-size tail fields; 8-byte scalars on 32-bit targets; StdSizes on wasm) are recorded per (target,type) in known/C08_*.txt.", ref="§4 C08"),
+ "C12": dict(cat="exploration", engine="tc",
+   technique="exhaustive enumeration of import DAGs up to isomorphism x content variants, differential trace vs go1.24.0 on the order the property fixes",
+   text="Every import DAG on <=3 library packages (thorough: all 31 on 4) with main importing the roots or everything, crossed with content variants (dependencies against file order, several init functions per file, blank variables and imports, cross-package initialisers, an initialiser using the patched sync/atomic): the trace must contain every initialiser/init exactly once, each package's own sequence must equal the reference toolchain's, each package must start only after every package it uses has finished, and main.main comes last.",
+   note="The relative order of independent packages is not part of the property and is not compared (llgo follows import order, Go >= 1.21 sorts by path). Only build mode exe is executed.", ref="§4 C12"),
 }
 ALL = ["C%02d" % i for i in range(1, 21)]
 m = {
